@@ -220,7 +220,6 @@ func (mi *muxInstance) serveHTTP(stdw http.ResponseWriter, stdr *http.Request)
   closure[1] ()
     flag use=contract
     flag allocates
-    flag frame=unchecked
     requires ctx != nil && stdw != nil && ifaceVal(stdw) != 0 && mi != nil && mi.superSpec != nil && mi.superSpec.meta != nil && mi.httpStat != nil && topN != nil && body != nil && span != nil && req != nil && stdr != nil
     requires http-responses-are-complete: outResp != 0 && outRespTyp == typeTag("*httpprot.Response") ==> allocated(ptr(outResp, "*httpprot.Response")) && ptr(outResp, "*httpprot.Response").Response != nil && ptr(outResp, "*httpprot.Response").Response.Header != nil
     assume the-writers-header-map-is-its-own: forall x *http.Response :: ref(x.Header) != rwHdr(ifaceVal(stdw))
